@@ -1065,4 +1065,67 @@ theorem kernel_rows {lhs rhs : MechTable} (hl : WF lhs) (hr : WF rhs) (hc : Comp
     rw [unmatched_read hl hr hc mode hrf]
     cases mode <;> simp [isRF] at hrf <;> simp [specRows, toMode]
 
+/-! ### the columns -/
+
+def toCol (c : Nat × ValueKind × String) : Col := ⟨c.2.2, c.2.1.scalar, c.2.1.isOpt⟩
+
+theorem make_optional_scalar (k : ValueKind) : (make_optional_kind k).scalar = k.scalar := by
+  cases k <;> rfl
+theorem make_optional_isOpt (k : ValueKind) : (make_optional_kind k).isOpt = true := by
+  cases k <;> rfl
+
+theorem kernel_cols {lhs rhs : MechTable} (hl : WF lhs) (hr : WF rhs) (hc : Compat lhs rhs)
+    (mode : Gen.JoinKernel.JoinMode) :
+    colsOf (build_joined_table lhs rhs mode) = joinCols (toMode mode) (colsOf lhs) (colsOf rhs) := by
+  rw [build_eq, finish_cols _ _ (by rw [outputCols_ids]; exact outIds_nodup hl hr hc mode)]
+  cases hsa : isSA mode
+  · have hj : joinCols (toMode mode) (colsOf lhs) (colsOf rhs) =
+        ((colsOf lhs).zipIdx.map (fun ci =>
+          if !((commonCols (colsOf lhs) (colsOf rhs)).any (fun p => p.1 == ci.2)) && isRF mode
+          then { ci.1 with opt := true } else ci.1))
+        ++ (rhsOnly (colsOf lhs) (colsOf rhs)).filterMap (fun j => ((colsOf rhs)[j]?).map (fun c =>
+          if isLF mode then { c with opt := true } else c)) := by
+      cases mode <;> simp [isSA] at hsa <;> rfl
+    rw [hj]
+    simp only [outputCols, hsa, Bool.false_eq_true, if_false, List.map_append, List.map_map]
+    congr 1
+    · have hz : (colsOf lhs).zipIdx = lhs.data.zipIdx.map
+          (Prod.map (fun e => (⟨nameOf lhs e.1, e.2.1.scalar, e.2.1.isOpt⟩ : Col)) id) := by
+        unfold colsOf; exact List.zipIdx_map
+      rw [hz, List.map_map]
+      conv => lhs; rw [← List.zipIdx_map_fst 0 lhs.data]
+      rw [List.map_map]
+      apply List.map_congr_left
+      rintro ⟨e, i⟩ hm
+      have hel := List.mem_zipIdx_iff_getElem?.1 hm
+      simp only at hel
+      simp only [Function.comp, Prod.map, id]
+      rw [← contains_commonLhs hl hr i e hel]
+      simp only [clhs]
+      by_cases hb : (!HashSet.contains ((ccIds lhs rhs).map Prod.fst) e.1 && isRF mode) = true
+      · simp only [hb, if_true, make_optional_scalar, make_optional_isOpt]
+      · simp [hb]
+    · rw [roData, rhs_only_data hl hr]
+      simp only [colsOf_getElem?, List.map_filterMap, Option.map_map]
+      congr 1
+      funext j
+      cases rhs.data[j]? with
+      | none => rfl
+      | some e =>
+        simp only [Option.map_some, Function.comp]
+        by_cases hb : isLF mode = true
+        · simp only [hb, if_true, make_optional_scalar, make_optional_isOpt]
+        · simp [hb]
+  · have hj : joinCols (toMode mode) (colsOf lhs) (colsOf rhs) = colsOf lhs := by
+      cases mode <;> simp [isSA] at hsa <;> rfl
+    rw [hj]
+    simp only [outputCols, hsa, if_true, List.map_map, colsOf]
+    rfl
+
+/-- the table `build_joined_table` returns, read as a model table, is the model's join -/
+theorem kernel_join {lhs rhs : MechTable} (hl : WF lhs) (hr : WF rhs) (hc : Compat lhs rhs)
+    (mode : Gen.JoinKernel.JoinMode) :
+    toTable (build_joined_table lhs rhs mode) = join (toMode mode) (toTable lhs) (toTable rhs) := by
+  simp only [toTable, join, kernel_cols hl hr hc, kernel_rows hl hr hc, joinRows_eq_spec]
+
 end MechVerif.JoinIR
